@@ -200,6 +200,10 @@ func body(c cfg) func() {
 						var n int
 						fmt.Sscan(f[2], &n)
 						_, err = col.Update(f[1], msg(n), resource.WithCreateIfAbsent())
+					case "upz": // create-if-absent with a body that sets no field: the item exists all the same
+						_, err = col.Update(f[1], &T{}, resource.WithCreateIfAbsent())
+					case "addz":
+						_, err = col.Add(f[1], &T{})
 					case "del":
 						_, err = col.Delete(f[1], resource.WithAllowMissing(true))
 					}
@@ -260,7 +264,7 @@ func body(c cfg) func() {
 			recreates := false
 			for _, w := range c.writers {
 				for _, o := range w {
-					if strings.HasPrefix(o, "ups:a:") {
+					if strings.HasPrefix(o, "ups:a:") || o == "upz:a" || o == "addz:a" {
 						recreates = true
 					}
 				}
@@ -422,6 +426,22 @@ func main() {
 		for _, w := range [][][]string{{{"set:1"}}, {{"set:1", "set:2"}}, {{"set:1"}, {"set:2"}}} {
 			c := cfg{kind: "value", backpressure: bp, writers: w, emptyValue: true}
 			h.Sched(c.name(), -1, -1, body(c), hx.StdOracle)
+		}
+	}
+	// items created with a body that sets no field (equal to the empty message a create starts from): they are
+	// items like any other - the subscriber hears of them, of what is written to them next, and of their removal
+	for _, kind := range []string{"coll", "id"} {
+		for _, bp := range []bool{true, false} {
+			for _, uo := range []bool{false, true} {
+				ws := [][][]string{{{"upz:b"}}, {{"addz:b", "upd:b:1"}}, {{"upz:b", "del:b"}}, {{"upz:b"}, {"upd:a:1"}}}
+				if kind == "id" {
+					ws = [][][]string{{{"del:a", "upz:a"}}, {{"del:a", "addz:a", "upd:a:1"}}, {{"del:a"}, {"upz:a"}}}
+				}
+				for _, w := range ws {
+					c := cfg{kind: kind, backpressure: bp, updatesOnly: uo, writers: w}
+					h.Sched(c.name(), -1, -1, body(c), hx.StdOracle)
+				}
+			}
 		}
 	}
 	// a collection with an equivalence: the item is removed and created again with the value it had (and with
